@@ -32,7 +32,7 @@ def run(s):
                                                                               "lemma_hash", dict(a="Obj:" + q, b="Obj:" + q), "C19")))
     s.attempt_all(tasks)
     s.attempt("tables", lambda: tables(s, v))
-    s.min_obligations = 20
+    s.min_obligations = 12
     s.discharge_all()
     s.triage()
     s.standin("encoding_small")
